@@ -31,7 +31,7 @@ ANCHORS = ['readcoderaggedarray:readcode', 'readcoderaggedarray:readcodedarr', '
            'readcoderaggedarray:readcodemathematica', 'readcoderaggedarray:readcodemaple', 'raggedarray:RaggedArray.readcode']
 REQUIRED = ['mon.offer_rule', 'mon.accessor_k', 'mon.example_statement', 'mon.executed', 'mon.tree_unchanged',
             'mon.read_blocks']
-MIN_NONTRIVIAL = {'quick': 8000, 'thorough': 30000}
+MIN_NONTRIVIAL = {'quick': 5000, 'thorough': 30000}
 
 PATTERNS = {'one': [3], 'two': [2, 0], 'three': [0, 2, 1], 'seven': [1, 0, 0, 4, 2, 0, 3], 'allempty': [0, 0, 0],
             'startswithfull': [4, 1]}
